@@ -400,3 +400,60 @@ def mech_prop(focuses, extra_side=None, orderings=False, count_oracle=True):
 
 PROPS['C01'] = mech_prop([None, {'thin', 'with'}, {'union'}, {'unique'}, {'raw'}, {'uninit'}, None], count_oracle=False)
 PROPS['C04'] = mech_prop([None, {'with'}, {'thin', 'with'}, {'union'}, None])
+
+
+# ============================================================================
+# concurrency (C02 and the schedule halves of C03 C08 C09)
+# ============================================================================
+def protocol_side(facts):
+    P = facts.get('protocol') or {}
+    out = []
+    out.append(('atomic_sites_closed_world', bool(P.get('closed')), 'sites outside the modelled functions: %s' % P.get('unmodelled_sites')))
+    out.append(('drop_inner_shape', bool(P.get('drop_shape')), 'decrement %s, then %s %s unconditionally, then drop_slow' % (P.get('dec_ord'), P.get('acq_kind'), P.get('acq_ord'))))
+    out.append(('decrement_is_release', P.get('dec_ord') in ('Rel', 'AcqRel', 'SC'), 'fetch_sub ordering: %s' % P.get('dec_ord')))
+    out.append(('acquire_after_last_decrement', P.get('acq_ord') in ('Acq', 'AcqRel', 'SC') and bool(P.get('drop_shape')), '%s ordering: %s' % (P.get('acq_kind'), P.get('acq_ord'))))
+    return out
+
+def uniq_side(facts):
+    P = facts.get('protocol') or {}
+    return [('uniqueness_test_is_acquire', P.get('uniq_ord') in ('Acq', 'AcqRel', 'SC') and bool(P.get('uniq_shape')),
+             'is_unique -> count -> load ordering: %s' % P.get('uniq_ord'))]
+
+def search_conc(facts, tier, rng):
+    """bounded exploration of the extracted-configuration machine for a racy schedule (search only)"""
+    depth2, depth3 = (9, 7) if tier != 'thorough' else (10, 8)
+    body = ('From Coq Require Import List. Import ListNotations.\nFrom TV Require Import Layout SrcFacts Conc Extracted.\n'
+            'Eval vm_compute in (explore Extracted.conc_cfg 2 %d cinit [], explore Extracted.conc_cfg 3 %d cinit []).\n' % (depth2, depth3))
+    rc, out = vlib.coq_eval(body, 'explore', timeout=900)
+    if rc != 0: return None
+    txt = ' '.join(out.split())
+    import re
+    m = re.search(r'Some\s*\[([^\]]*)\]', txt)
+    if not m: return None
+    sched = [x.strip() for x in m.group(1).split(';') if x.strip()]
+    P = facts.get('protocol') or {}
+    return dict(description='the view machine under the orderings found in the source (decrement %s, acquire site %s %s, uniqueness test %s) has a racy schedule: %s'
+                % (P.get('dec_ord'), P.get('acq_kind'), P.get('acq_ord'), P.get('uniq_ord'), '; '.join(sched)),
+                payload=dict(kind='model-counterexample', model='coq/theories/Conc.v', config=dict(dec=P.get('dec_ord'), acq=P.get('acq_ord'), uniq=P.get('uniq_ord')),
+                             schedule=sched, replay='Eval vm_compute in raced_after Extracted.conc_cfg [%s]' % '; '.join(sched)))
+
+def facts_protocol(facts):
+    P = facts.get('protocol') or {}
+    return dict((k, P.get(k)) for k in ['dec_ord', 'acq_kind', 'acq_ord', 'uniq_ord', 'inc_ord', 'strong_ord', 'closed', 'drop_shape', 'unmodelled_sites'])
+
+CONC_ASSUME = MECH_ASSUME + ['the memory model is the promise-free view semantics of release/acquire + relaxed RMWs on one counter (RC11 without load buffering), coq/theories/Conc.v',
+                             'real multi-threaded executions of the crate are not run by the quick check: the tie is the translated orderings and closed world plus the single-threaded atomic footprint of every call']
+
+def conc_prop(focuses, with_uniq):
+    P = mech_prop(focuses, extra_side=(lambda f: protocol_side(f) + (uniq_side(f) if with_uniq else [])), orderings=True)
+    P['search'] = search_conc
+    P['facts_view'] = facts_protocol
+    P['assumptions'] = CONC_ASSUME
+    return P
+
+PROPS['C02'] = conc_prop([None, {'thin'}, {'union'}, {'raw'}, None], with_uniq=False)
+PROPS['C03'] = conc_prop([{'unique'}, None, {'thin', 'with'}, {'uninit'}, {'unique'}], with_uniq=True)
+PROPS['C08'] = conc_prop([{'unique'}, None, {'raw'}, {'union'}], with_uniq=True)
+PROPS['C09'] = conc_prop([{'unique'}, None, {'unique'}, {'raw'}], with_uniq=True)
+PROPS['C10'] = mech_prop([{'thin', 'with'}, {'thin'}, None, {'thin', 'with'}])
+PROPS['C15'] = mech_prop([{'uninit'}, None, {'uninit'}, {'unique'}])
